@@ -82,3 +82,15 @@ GROUPS += [
           props=["C18", "C11", "C17"], assumed=["mps/line_*: static handlers called through goto-cc --export-file-local-symbols; the line scanner (ILLmps_next_field / next_coef / next_bound), the symbol table lookup and the raw-problem adders are arbitrary-result stubs; GMP model variant TOKENS"])
     for fn, real in [("col", "mps_read_col_line"), ("rhs", "add_rhs"), ("ranges", "add_ranges"), ("bounds", "add_bounds")]
 ]
+
+STATICS = ["add_row", "add_col", "add_rhs", "add_ranges", "add_bounds", "mps_fill_in"]
+GROUPS += [
+    Group("mps/sections%d" % NL, "mps_sections.c", tus=["mps_mpq.c", "read_mps_mpq.c", "allocrus.c", "util.c"], model=MODEL, dfcc=False, export_static=True, unwind=14, unwindset=["mpq_ILLread_mps.0:%d" % (NL + 2)], kind="bounded", namebuf=16, leak=True, timeout=1500, object_bits=11,
+          defines=["NLINES=%d" % NL], tier=tier,
+          remove_bodies=["__CPROVER_file_local_mps_mpq_c_" + f for f in STATICS] + ["mpq_ILLmps_next_line", "mpq_ILLmps_error", "mpq_ILLmps_warn", "mpq_ILLmps_check_end_of_line"],
+          bound="every file of at most %d lines, each a section header (ten keywords or an unknown word, field present or not) or a data line; loops completely unwound; reader buffer capacity 16" % NL,
+          flags=["--no-malloc-may-fail"], must_fail=["reach_end", "reach_two_data_lines_processed", "reach_rejected_file"],
+          functions=["ILLread_mps", "read_mps_section", "check_section_order", "read_mps_line_in_section", "read_mps_name", "read_mps_refrow", "read_mps_objnamesense", "read_mps_objsense", "read_mps_objname", "ILLmps_state_init", "ILLmps_set_section"],
+          props=["C11", "C18", "C17"], assumed=["mps/sections: the line scanner (ILLmps_next_line), the data-line handlers, mps_fill_in, the symbol table constructor and ILLraw_init_rhs/ranges/bounds are ghost-recording stubs with arbitrary results (decided in rdr/mps_scan_*, mps/line_*, rawlp/*); strcmp on the section keywords is CBMC's model"])
+    for NL, tier in [(3, "quick"), (4, "thorough")]
+]
